@@ -31,7 +31,8 @@ RULE = ("prime selection: every size 25..1200 (plus 12 and 24) x several "
         "multi-tap channel.  "
         "Cover codes are Walsh rows of length 2 and 4. "
         "The normalisation flag reaches the sequences as a literal, a numpy bool or 0/1. "
-        "A quarter of the LS pilot matrices have nearly parallel rows (condition up to 1e4). ")
+        "A quarter of the LS pilot matrices have nearly parallel rows (condition up to 1e4). "
+        "A flat cover-code observation is used for a second estimate. ")
 ASSUMPTIONS = ["phase of the reference ZC sequence reduced exactly with integer "
                "arithmetic modulo 2 Nzc; library phases are allowed 8 eps pi u N",
                "multi-user estimator scenarios only for lengths that are a "
@@ -384,8 +385,22 @@ def case_estimator(ctx, rng, idx):
         flat = rng.random() < 0.3
         if flat:
             Yc = np.ascontiguousarray(Yin).reshape(Yin.shape[:-2] + (-1,))
+            Yc0 = Yc.copy()
             okc, got = ctx.call("estimator-exact", est.estimate_channel_freq_domain, Yc, keep,
                                 False, detail=tag)
+            if okc:
+                # the flat observation is the caller's: the next user is estimated
+                # from the very same array
+                ctx.ev("args-not-mutated", np.array_equal(np.ravel(Yc), np.ravel(Yc0)),
+                       cls="estimate_channel_freq_domain:flat", detail=tag)
+                okc2, again = ctx.call("estimator-exact", est.estimate_channel_freq_domain, Yc,
+                                       keep, False, cls="flat-observation-used-again:raised",
+                                       detail={**tag, "shape_now": np.shape(Yc),
+                                               "shape_given": Yc0.shape})
+                if okc2:
+                    ctx.ev("estimator-exact", np.shape(again) == np.shape(got) and
+                           np.array_equal(np.asarray(again), np.asarray(got)),
+                           cls="flat-observation-used-again:different", detail=tag)
         else:
             okc, got = ctx.call("estimator-exact", est.estimate_channel_freq_domain,
                                 np.array(Yin), keep, detail=tag)
